@@ -44,6 +44,25 @@ let eval_line (fields : string list) : (string * string) list =
      if ef <> df then fail "oracle.C07" "encode and decode side disagree on is_ssz_fixed_len";
      if el <> dl then fail "oracle.C07" "encode and decode side disagree on ssz_fixed_len";
      if ef = "0" && el <> "4" then fail "oracle.C07" "variable-size type with fixed part <> 4"
+   | ["meta2"; ts; dts; ef; el; df; dl] ->
+     (* a definition with a skip flag on one side only: the encode side is judged at the schema written,
+        the decode side at the schema read (the two derives are two codecs) *)
+     let t = ty_of_sexp (parse_sexp ts) in
+     let dt = ty_of_sexp (parse_sexp dts) in
+     let b s = s = "1" in
+     if M.e_is_fixed t <> b ef then fail "corr.meta" "e_is_fixed";
+     if M.d_is_fixed dt <> b df then fail "corr.meta" "d_is_fixed";
+     if M.e_fixed_len t <> n_of_dec el then fail "corr.meta" ("e_fixed_len model=" ^ hex_of_n (M.e_fixed_len t));
+     if M.d_fixed_len dt <> n_of_dec dl then fail "corr.meta" ("d_fixed_len model=" ^ hex_of_n (M.d_fixed_len dt));
+     if ef = "0" && el <> "4" then fail "oracle.C07" "variable-size type with fixed part <> 4";
+     if df = "0" && dl <> "4" then fail "oracle.C07" "variable-size type with fixed part <> 4"
+   | ["metap"; ts] ->
+     (* the metadata functions panicked: only the documented assertion of transparent enums with a
+        fixed-size variant may do that *)
+     let t = ty_of_sexp (parse_sexp ts) in
+     (match t with
+      | M.TTransEnum vs when List.exists M.e_is_fixed vs -> bump "meta.trans_enum_assert"
+      | _ -> fail "corr.meta" "metadata function panics"; fail "oracle.C07" "a metadata function panics")
    | ["enc"; ts; vs; hex; blen; rt] ->
      let t = ty_of_sexp (parse_sexp ts) in
      let v = val_of_sexp (parse_sexp vs) in
@@ -116,6 +135,7 @@ let eval_line (fields : string list) : (string * string) list =
       | Some n ->
         (match bs, crate with
          | [], ROk _ -> fail "oracle.C15" "empty input accepted by a union"
+         | _, RPanic -> fail "oracle.C15" "a union input is to be decoded or rejected with an error: the decoder panicked"
          | s :: _, ROk (v, _, _) ->
            let s = int_of_n s in
            if s >= n || s > 127 then fail "oracle.C15" "selector that names no variant was accepted"
